@@ -11,7 +11,8 @@ H_FALSE, H_TRUE, H_REJECT, H_DEFERRED = 0, 1, 2, 4
 
 class St:
     def __init__(s, name, kind='simple', sub=None, flags=(), deferred=(), internal=(),
-                 end_events=(), region=None, exit_event=None):
+                 end_events=(), region=None, exit_event=None, entry_send=(), exit_send=()):
+        s.entry_send = list(entry_send); s.exit_send = list(exit_send)   # [(event, mode)]: events submitted from on_entry / on_exit
         s.name = name; s.kind = kind; s.sub = sub; s.flags = list(flags)
         s.deferred = list(deferred); s.internal = list(internal)
         s.end_events = list(end_events); s.region = region; s.exit_event = exit_event
@@ -244,6 +245,7 @@ class Sem:
         if st.kind == 'sub': s.enter_machine(st.sub, pay, None, evt)
         else:
             s.L('E', st.idx, pay)
+            for ev2, mode in st.entry_send: s.submit(ev2, pay)
             if st.kind == 'exit':
                 # exit point: the connected outer transition is taken with the forwarded event in the same top-level call
                 s.c.queue.append((st.exit_event, pay))
@@ -260,7 +262,9 @@ class Sem:
     def exit_state(s, m, name, pay):
         st = m.states[name]
         if st.kind == 'sub': s.exit_machine(st.sub, pay)
-        else: s.L('X', st.idx, pay)
+        else:
+            s.L('X', st.idx, pay)
+            for ev2, mode in st.exit_send: s.submit(ev2, pay)
 
     # ---- start / stop
     def start(s):
@@ -376,6 +380,7 @@ class Sem:
         res = 0
         for row in cands:
             if row.evt is None or not s.prog.evt_matches(row.evt, ev): continue
+            for ev2, mode in getattr(row, 'gsend', ()): s.submit(ev2, s.pay)
             if row.guard is not None and not s.ctx.guard(row.guard):
                 res |= H_REJECT; continue
             return s.take(m, r, row, ev)
@@ -414,11 +419,24 @@ class Sem:
             cm['active'][r] = tname
         return H_TRUE
 
+    def submit(s, ev, pay):
+        """an event submitted while the machine is processing: stored, dispatched after the current step, FIFO"""
+        s.c.queue.append((ev, pay_plus1(pay)))
+
     def action(s, row):
         a = row.act
         if a is None: return
         if isinstance(a, int): s.L('A', a, s.pay)
+        elif isinstance(a, tuple) and a[0] == 'send':
+            s.L('A', a[1], s.pay)
+            for ev2, mode in a[2]: s.submit(ev2, s.pay)
         else: raise NotImplementedError(a)
+
+
+def pay_plus1(pay):
+    if pay == '-1': return '0'
+    try: return str(int(pay) + 1)
+    except ValueError: return '(int32_t)((uint32_t)(%s) + 1u)' % pay
 
 
 ANY = '*any*'     # log argument that is not specified by the property (not compared)
@@ -469,7 +487,7 @@ def bfs(prog, steps, max_depth=6, max_confs=200):
                 for dec, log, res, post in explore(prog, conf, lambda sem, st=st: run_step(sem, st)):
                     edges += 1
                     pk = post.key()
-                    if pk not in seen and len(seen) < max_confs:
+                    if pk not in seen and len(seen) < max_confs and len(post.queue) + len(post.deferred) <= 3:
                         seen[pk] = (post, script + [(st, dec)])
                         order.append(pk); nxt.append(pk)
         frontier = nxt
@@ -483,4 +501,16 @@ def run_step(sem, st):
         return sem.process_event(st[1], st[2] if len(st) > 2 else 'P')
     if st[0] == 'start': sem.start(); return None
     if st[0] == 'stop': sem.stop(); return None
+    if st[0] == 'enq':          # enqueue_event from outside while idle: stored only
+        if not sem.c.started: return None
+        sem.c.queue.append((st[1], st[2] if len(st) > 2 else 'P')); return None
+    if st[0] == 'execq':        # execute_queued_events / process_event_pool
+        sem.drain(); return None
+    if st[0] == 'exec1':        # single-step variant: exactly the oldest pending event
+        if sem.c.queue:
+            ev, pay = sem.c.queue.pop(0)
+            if not sem.blocked(ev):
+                if sem.is_deferred(ev): sem.c.deferred.append((ev, pay))
+                else: sem.run_one(ev, pay)
+        return None
     raise ValueError(st)
